@@ -251,3 +251,161 @@ def r2_contract(with_prel=False):
     c.region_name = "R2: NaN mask, sort, re-index"
     c.loop_inv = loop_inv
     return c
+
+
+# ------------------------------------------------------------------------------------------ R3
+def region_r3(fnode):
+    for s in ast.walk(fnode):
+        if isinstance(s, ast.If):
+            body = s.body
+            start = end = None
+            for k, b in enumerate(body):
+                if isinstance(b, ast.Assign) and len(b.targets) == 1 and isinstance(b.targets[0], ast.Name) and b.targets[0].id == "Prel_DL" and start is None:
+                    start = k
+                if isinstance(b, ast.AugAssign) and isinstance(b.target, ast.Name) and b.target.id == "Prel" and isinstance(b.op, ast.Div):
+                    end = k
+            if start is not None and end is not None and end > start:
+                return body[start:end + 1]
+    return None
+
+
+def r3_contract():
+    """Relative probabilities.  With SUP(k) :<=> an earlier row has exactly the same likelihood, E(k) = 0 if SUP(k) else
+    exp(-(DL_k - DL_0)) (0 when that difference is +inf) and S = sum E: for a finite best description length the result is
+    Prel(k) = E(k) / S -- finite, non-negative, zero exactly for suppressed (or infinitely worse) rows, S >= 1, and the sum is 1.
+    Ghost functions (first earlier equal row, slot of a likelihood in the list, source row of a list entry) carry the
+    witnesses of the existential statements through the loop."""
+    from pyvc.engine import LoopSpec
+    from pyvc.values import fsub, fexp, fneg, EXP, VConc
+    M_ = z3.Int("mrows")
+    GT = T("ghostfn", z3.IntSort(), z3.IntSort())
+
+    def arr(name, etype, n):
+        def mk(eng, st):
+            v = eng.fresh(T.arr(etype), name, st)
+            st.heap[v.addr].len = n
+            return v
+        return mk
+
+    params = {"negloglike_sort": arr("negloglike_sort", T.float, M_), "DL_sort": arr("DL_sort", T.float, M_)}
+
+    def requires(S, a):
+        nl, dl = S.seq(a["negloglike_sort"]), S.seq(a["DL_sort"])
+        k = z3.Int("k!rq")
+        return [("at least one row", M_ >= 1),
+                ("no NaN in the sorted table; rows are in non-decreasing order of description length (established by R2)",
+                 z3.ForAll([k], z3.Implies(z3.And(0 <= k, k < M_), z3.And(z3.Not(nl.get(k).nan), z3.Not(dl.get(k).nan),
+                                                                        fle(dl.get(z3.IntVal(0)), dl.get(k))))))]
+
+    def setup(eng, st, args):
+        for nm in ("__first", "__posl", "__src"):
+            st.env[nm] = eng.fresh(GT, nm.strip("_"), st)
+        eng._sum_terms = []
+
+    def G(S, nm):
+        return S.var(nm).obj
+
+    def inv(S, st):
+        i = S.i(S.var("__i"))
+        nl, dl = S.seq(S.eng.args0["negloglike_sort"]), S.seq(S.eng.args0["DL_sort"])
+        PD = S.seq(S.var("Prel_DL"))
+        lst = S.seq(S.var("negloglike_list"))
+        FIRST, POSL, SRC = G(S, "__first"), G(S, "__posl"), G(S, "__src")
+        k, k2, q = z3.Int("k!r3"), z3.Int("k2!r3"), z3.Int("q!r3")
+        d0 = dl.get(z3.IntVal(0))
+        return [
+            ("Prel_DL has one entry per row", PD.len == M_),
+            ("ghost FIRST: -1, or an earlier row with exactly the same likelihood; -1 only if there is none",
+             z3.ForAll([k], z3.Implies(z3.And(0 <= k, k < i), z3.And(
+                 FIRST(k) >= -1, FIRST(k) < k,
+                 z3.Implies(FIRST(k) >= 0, feq(nl.get(FIRST(k)), nl.get(k))),
+                 z3.Implies(FIRST(k) == -1, z3.ForAll([k2], z3.Implies(z3.And(0 <= k2, k2 < k), z3.Not(feq(nl.get(k2), nl.get(k)))))))))),
+            ("every list entry is the likelihood of an earlier row (ghost SRC)",
+             z3.And(lst.len >= 0, lst.len <= i,
+                    z3.ForAll([q], z3.Implies(z3.And(0 <= q, q < lst.len), z3.And(0 <= SRC(q), SRC(q) < i, fsame(as_float(lst.get(q)), nl.get(SRC(q)))))))),
+            ("the likelihood of every earlier row is in the list (ghost POSL)",
+             z3.ForAll([k], z3.Implies(z3.And(0 <= k, k < i), z3.And(0 <= POSL(k), POSL(k) < lst.len, feq(as_float(lst.get(POSL(k))), nl.get(k)))))),
+            ("processed rows: +inf if suppressed, else DL - DL_0; unprocessed rows still +inf",
+             z3.ForAll([k], z3.Implies(z3.And(0 <= k, k < M_), z3.And(
+                 z3.Implies(z3.And(k < i, FIRST(k) >= 0), as_float(PD.get(k)).is_pinf()),
+                 z3.Implies(z3.And(k < i, FIRST(k) == -1), fsame(as_float(PD.get(k)), fsub(dl.get(k), d0))),
+                 z3.Implies(k >= i, as_float(PD.get(k)).is_pinf()))))),
+        ]
+
+    def upd(S, st, name, at, val):
+        old = G(S, name)
+        g = VConc("ghostfn", lambda q, old=old, at=at, val=val: z3.If(q == at, val, old(q)))
+        g.gtype = GT
+        st.env[name] = g
+
+    def on_continue(S, st, node):
+        # the likelihood of row i is already in the list: its witness position w gives the earlier row SRC(w)
+        i = S.i(S.var("i"))
+        wit = None
+        for c in reversed(st.pc):
+            if z3.is_const(c) and c.get_id() in getattr(S.eng, "_any_witness", {}):
+                wit = S.eng._any_witness[c.get_id()]
+                break
+        if wit is None:
+            raise Unsupported("membership witness not found at `continue`")
+        upd(S, st, "__first", i, G(S, "__src")(wit))
+        upd(S, st, "__posl", i, wit)
+
+    def on_append(S, st, node):
+        if not isinstance(node, ast.AugAssign):
+            return
+        i = S.i(S.var("i"))
+        lst = S.seq(S.var("negloglike_list"))
+        upd(S, st, "__first", i, z3.IntVal(-1))
+        upd(S, st, "__posl", i, lst.len - 1)
+        upd(S, st, "__src", lst.len - 1, i)
+
+    def ensures(S, a, res):
+        eng, st = S.eng, S.st
+        nl, dl = S.seq(a["negloglike_sort"]), S.seq(a["DL_sort"])
+        P = S.seq(S.var("Prel"))
+        FIRST = G(S, "__first")
+        d0 = dl.get(z3.IntVal(0))
+        k, k2 = z3.Int("k!en"), z3.Int("k2!en")
+        sup = lambda kk: z3.Exists([k2], z3.And(0 <= k2, k2 < kk, feq(nl.get(k2), nl.get(kk))))
+        diff = lambda kk: fsub(dl.get(kk), d0)
+        Ek = lambda kk: z3.If(z3.Or(FIRST(kk) >= 0, diff(kk).inf), z3.RealVal(0), EXP(-diff(kk).val))
+        Earr = M.named_array(eng, z3.Lambda([k], Ek(k)), "E")
+        Ssum = M.SUMR(Earr, M_)
+        # lemma-library instances (pyvc/lemmas.py): non-negative sum bounded below by a summand; extensionality; division distributes
+        q = z3.Int(fresh_name("q!l"))
+        eng.axioms.append(z3.Implies(z3.ForAll([q], z3.Implies(z3.And(0 <= q, q < M_), z3.Select(Earr, q) >= 0)),
+                                     z3.And(Ssum >= 0, Ssum >= z3.Select(Earr, z3.IntVal(0)))))
+        for (arr_, nn) in getattr(eng, "_sum_terms", []):
+            q2 = z3.Int(fresh_name("q!x"))
+            eng.axioms.append(z3.Implies(z3.ForAll([q2], z3.Implies(z3.And(0 <= q2, q2 < M_), z3.Select(arr_, q2) == z3.Select(Earr, q2))),
+                                         M.SUMR(arr_, M_) == Ssum))
+        Parr = M.named_array(eng, z3.Lambda([k], as_float(P.get(k)).val), "PREL")
+        q3 = z3.Int(fresh_name("q!d"))
+        eng.axioms.append(z3.Implies(z3.And(Ssum != 0, z3.ForAll([q3], z3.Implies(z3.And(0 <= q3, q3 < M_), z3.Select(Parr, q3) == z3.Select(Earr, q3) / Ssum))),
+                                     M.SUMR(Parr, M_) == Ssum / Ssum))
+        fin0 = d0.is_fin()
+        return [
+            ("FIRST characterises suppression: FIRST(k) >= 0 <=> an earlier row has exactly the same likelihood",
+             z3.ForAll([k], z3.Implies(z3.And(0 <= k, k < M_), (FIRST(k) >= 0) == sup(k)))),
+            ("finite best description length: the normaliser S = sum E is at least 1 (row 0 is never suppressed and has E = 1)", z3.Implies(fin0, Ssum >= 1)),
+            ("finite best description length: Prel(k) = E(k) / S, finite and non-negative, zero for suppressed rows",
+             z3.Implies(fin0, z3.And(P.len == M_, z3.ForAll([k], z3.Implies(z3.And(0 <= k, k < M_), z3.And(
+                 as_float(P.get(k)).is_fin(), as_float(P.get(k)).val == Ek(k) / Ssum, as_float(P.get(k)).val >= 0,
+                 z3.Implies(FIRST(k) >= 0, as_float(P.get(k)).val == 0))))))),
+            ("finite best description length: the relative probabilities sum to one", z3.Implies(fin0, M.SUMR(Parr, M_) == 1)),
+        ]
+
+    def loop_select(node):
+        if isinstance(node, ast.For) and any(isinstance(x, ast.AugAssign) and getattr(x.target, "id", None) == "negloglike_list" for x in ast.walk(node)):
+            ls = LoopSpec(inv, havoc_types={"negloglike_list": T.list(T.float)})
+            ls.ghost = ["__first", "__posl", "__src"]
+            return ls
+        return None
+
+    c = Contract("main", params, requires=requires, ensures=ensures, setup=setup, region=region_r3, raises=lambda S, a, e: z3.BoolVal(False),
+                 hooks={"negloglike_list": on_append})
+    c.region_name = "R3: duplicate suppression and normalised relative probabilities"
+    c.loop_select = loop_select
+    c.stmt_hooks = [(lambda n: isinstance(n, ast.Continue), on_continue)]
+    return c
